@@ -403,6 +403,12 @@ func c15Run(o c15Opts, base time.Time, evs []c15Event) []bool {
 	dec := make([]bool, len(evs))
 	for i, e := range evs {
 		dec[i] = cl.AllowN(e.Addr, base.Add(e.Off), e.Cost)
+		// hook H7: a pass of the limiter's garbage collector in the middle of the history. Every
+		// bucket was used less than a minute ago (base is the present, offsets are not negative), so
+		// the pass must not forget any of them - a forgotten bucket comes back full.
+		if i%37 == 17 {
+			cl.VerifGC()
+		}
 	}
 	return dec
 }
